@@ -206,7 +206,13 @@ func (c *ctx) packageVisibility() {
 			if idxExec < 0 {
 				continue
 			}
-			if idxWrite < 0 {
+			entered := false
+			if fn := astx.Callee(finfo, call); fn != nil && len(ic.Chain) < 2 {
+				if d := astx.DeclOfFunc(finfo, fc.pkg.Syntax, fn); d != nil && d.Body != nil {
+					entered = true // a helper of the package: its own calls follow in the sequence
+				}
+			}
+			if idxWrite < 0 && !entered {
 				for _, a := range call.Args {
 					if o := astx.IdentObj(finfo, ic.Resolve(a)); o != nil && interface{}(o) == wObj {
 						idxWrite = i
@@ -219,11 +225,16 @@ func (c *ctx) packageVisibility() {
 				}
 			}
 			// the collector: a call in this function whose error result is tested and which reads what the check wrote
-			if len(ic.Chain) == 0 && idxCollected < 0 {
+			// (in this function, or in a helper entered from it whose error every caller on the way hands on)
+			if idxCollected < 0 {
 				if fn := astx.Callee(finfo, call); fn != nil && fn.Pkg() == c.inter.Types {
 					for _, f2 := range c.files {
 						if d := astx.DeclOfFunc(finfo, []*ast.File{f2.file}, fn); d != nil && d.Body != nil && c.sharesFieldWith(d, checks) {
-							if is, ok := fc.par.Enclosing(call, func(n ast.Node) bool { _, ok := n.(*ast.IfStmt); return ok }).(*ast.IfStmt); ok && is.Init != nil && fc.par.Within(call, is.Init) && astx.Terminates(is.Body) {
+							handedOn := c.errorHandedOn(call)
+							for _, site := range ic.Chain {
+								handedOn = handedOn && c.errorHandedOn(site)
+							}
+							if handedOn {
 								idxCollected = i
 							}
 						}
@@ -235,6 +246,30 @@ func (c *ctx) packageVisibility() {
 		good := exec.IsValid() && collected.IsValid() && (!firstWrite.IsValid() || collected < firstWrite)
 		c.s.Check(good, "G31", "generator."+name+"|recorded visibility errors are returned before the output is written", c.pos(fd), "", "the errors recorded by the visibility check are not collected and returned after the body template was executed (and before the first write to the output): the check has no effect")
 	}
+}
+
+// errorHandedOn: the error result of the call ends the calling function when it is not nil: the call is returned as
+// it is, or it is the initialiser of an `if err := call(); err != nil { return ... }`.
+func (c *ctx) errorHandedOn(call *ast.CallExpr) bool {
+	fc := c.fileOf(call)
+	if fc == nil {
+		return false
+	}
+	var p ast.Node = fc.par[call]
+	for {
+		if pe, ok := p.(*ast.ParenExpr); ok {
+			p = fc.par[pe]
+			continue
+		}
+		break
+	}
+	if ret, ok := p.(*ast.ReturnStmt); ok && len(ret.Results) == 1 {
+		return true
+	}
+	if is, ok := fc.par.Enclosing(call, func(n ast.Node) bool { _, ok := n.(*ast.IfStmt); return ok }).(*ast.IfStmt); ok && is.Init != nil && fc.par.Within(call, is.Init) && astx.Terminates(is.Body) {
+		return true
+	}
+	return false
 }
 
 // sharesFieldWith: d reads a struct field that one of the check functions writes (the place where the check
